@@ -27,6 +27,11 @@ def build(chk):
         chk.add(ei.ob('O1.Matrix.%s' % nm, 'c07/matrix.c', 'h_' + nm, 'Matrix%d%d<float>::%s(): f() == f(false); f(true) equals f() whenever it returns and throws std::invalid_argument only where f() returns the identity' % (n, n, nm[:-2]),
                       variant='ufar', unwind=n * n + 2, bounds=UFB, timeout=[240, 900, 900][heavy], backends=('z3', 'kissat') if heavy < 2 else ('kissat', 'z3', 'cadical'),
                       tier='thorough' if heavy >= 1 else 'quick', core=(heavy == 0)))
+    # 4x4 pairs on pinned families (identity except the listed entries, which are arbitrary): quick-tier coverage of the routing decisions
+    for fam, mask in (('translation_row', 0x7000),):      # the other pinned families tried (last column, last row and column) are not decided in 15 min by any back end
+        for nm in ('inverse44', 'invert44'):
+            chk.add(ei.ob('O1.Matrix.%s.%s' % (nm, fam), 'c07/matrix.c', 'h_' + nm, 'Matrix44<float>::%s() vs (false) vs (true) on matrices that are the identity except for an arbitrary %s: same bits whenever the checked form returns; throws std::invalid_argument only where the unchecked form returns the identity' % (nm[:-2], fam.replace('_', ' ')),
+                          variant='ufar', defines=('PINMASK=0x%X' % mask,), unwind=18, bounds=UFB + '; the entries outside the family are pinned to the identity', timeout=400, backends=('z3', 'kissat', 'minisat')))
     for nm, heavy in (('invert_eq_inverse22', 0), ('invert_eq_inverse33', 0), ('gjInvert_eq_gjInverse33', 1), ('invert_eq_inverse44', 2), ('gjInvert_eq_gjInverse44', 2)):
         n = int(nm[-1])
         chk.add(ei.ob('O2.inplace.%s' % nm, 'c07/matrix.c', 'h_' + nm, 'in-place form leaves exactly what the value-returning form returns (Matrix%d%d<float>)' % (n, n), variant='ufar', unwind=n * n + 2, bounds=UFB,
